@@ -284,7 +284,7 @@ def r4(ctx):
     rows = []
     import itertools
     for e_, x_, p_, l_ in itertools.product((True, False), repeat=4):
-        rs = explore(f.body, mk_atoms({E: e_, X: x_, P: p_, lz: l_}), names=None, nonnull=(ast.Tuple, ast.List, ast.Dict, ast.Set, ast.JoinedStr, ast.Subscript))
+        rs = explore(f.body, mk_atoms({E: e_, X: x_, P: p_, lz: l_}), names=None, nonnull=(ast.Tuple, ast.List, ast.Dict, ast.Set, ast.JoinedStr, ast.Subscript), key_lookups=True)
         outs = set()
         for r in rs:
             if r['kind'] == 'return' and r['stmt'] is not None and r['stmt'].value is not None:
